@@ -44,10 +44,12 @@ fn main() {
         "C05" => vh::pure::c05::run(&mut ctx),
         "C06" => vh::pure::c06::run(&mut ctx),
         "C07" => vh::pure::c07::run_grammar(&mut ctx),
+        "C11" => { vh::router::props::c11_router(&mut ctx); if !ctx.failed() { vh::net::c11::run_net(&mut ctx); } c11_meta(&mut ctx) }
         "C12" => vh::net::c12::run(&mut ctx),
         "C13" => vh::pure::c13::run(&mut ctx),
         "C14" => vh::pure::c14::run(&mut ctx),
         "C16" => vh::router::props::c16(&mut ctx),
+        "C17" => vh::net::c17::run(&mut ctx),
         _ => { eprintln!("unknown property {id}"); std::process::exit(2) }
     }
     std::process::exit(ctx.finish());
@@ -62,9 +64,17 @@ fn replay(id: &'static str, leg: &str, case: &serde_json::Value) -> i32 {
     if id == "C07" && leg == "grammar" { return vh::pure::c07::replay(id, case); }
     if id == "C14" { return vh::pure::c14::replay(id, case); }
     if id == "C06" { return vh::pure::c06::replay(id, case); }
+    if id == "C11" && leg == "stream-scripts" { return vh::net::c11::replay(id, case); }
+    if id == "C17" { return vh::net::c17::replay(id, case); }
     if id == "C12" { return vh::net::c12::replay(id, case); }
     if id == "C13" { return vh::pure::c13::replay(id, case); }
     if leg.starts_with("rr-") { return vh::router::props::replay_rr(id, leg, case); }
     eprintln!("no replay handler for leg {leg}");
     2
+}
+
+fn c11_meta(ctx: &mut Ctx) {
+    ctx.rule = "(a) scripts of 1-4 stream opens on a pool of 3 topics, some already used in the other messaging pattern, against a fresh real server: first frame of any of the eight kinds (registrations with valid and grammar-violating names; Message, BatchMessage, Error, Ok), followed by 0-5 frames of any kind incl. requests sized within 64 bytes of the wire limit (they fit until the server adds its routing tag) and replies with bogus tags; every accepted stream is probed for real service in its role, every touched topic is probed afterwards with well-behaved peers, and a process-wide panic hook watches the server tasks; (b) the same frame mixes fed straight into the real req/rep router with mock peers; non-trivial = the script contains a frame kind the role never sends, a cross-pattern registration, a non-registration first frame, a second replier, or a request near the limit".into();
+    ctx.assumptions.push("authenticated peer, well-formed frames only (malformed bytes are C06)".into());
+    ctx.assumptions.push("a second replier is answered Ok and then explicitly refused with REPLIER_ALREADY_BOUND: an explicit refusal, not a silent abandonment".into());
 }
